@@ -50,6 +50,20 @@ CORR_NAMES = ("det:", "log_is_journal", "unknown-message-id", "call-returned-une
 _cache = {}
 
 
+def generate(ctx=None):
+    """Translator: coq/Gen/Skeleton.v (call and access facts with must-hold locksets) from
+    /repo's current source; the Writer properties carry the obligation
+    Cxx_skeleton_assumptions (Proofs/SkeletonWriter.v) over it."""
+    from checks import c10
+    return c10.generate(ctx)
+
+
+def skeleton_hint():
+    from checks import c10
+    return c10.skeleton_hint("writer_assumptions", "Model/Writer.v")
+
+
+
 def setup():
     L.go_build("writer")
     L.ocaml_build("writer")
@@ -210,6 +224,8 @@ def correspondence_for(prop, ctx, rule_extra=""):
 
 
 def search_for(prop, ctx, violations):
+    from checks import c10
+    c10.annotate_skeleton_failure(ctx, violations, "SkeletonWriter", "writer_assumptions", "Model/Writer.v", "writer.go")
     ctx.seed += 1000
     ctx.tier = "thorough"
     ctx.thorough = True
